@@ -21,9 +21,14 @@ recorded in known_findings/C03.json and replayed on the real code by the check:
 * `C03_converges_fails` — publications of two writers delivered in the opposite order of their commits;
 * `C03_lossy_seed_dup_fails` — single writer: a lossy subscriber seeded with a change that is published only
   afterwards; the merge stage cancels that duplicate ADD against a later REMOVE.
-What is proved for every schedule satisfying the explicit decidable hypothesis `ordered` is
-`C03_converges_partial`; `C03_no_miss_at_subscribe` holds for ALL schedules; `C03_dup_harmless` and
-`C03_lossy_seed_dup_fails` say exactly where a duplicate of the seed is harmless and where it is not.
+What is proved for every schedule satisfying the explicit decidable hypothesis `ordered` — the publications OF
+ONE ID reach a subscriber in commit order (publications of different ids may overtake each other), and a subscriber
+registers only when the pending publications are current — is `C03_converges_partial` (raw view), `C03_converges_observed`
+(what the consumer folds from what it RECEIVES through the forwarder: include on the stored values, then the read
+mask), `C03_pullid_converges`, `C03_last_event_final`, `C03_updates_only`; `C03_no_miss_at_subscribe` and
+`C03_listeners_exact` hold for ALL schedules; `C03_forwarder_include_mask` for all linked streams;
+`C03_value_stage_is_drop_excess` for the lossy stage of a Value; `C03_dup_harmless` and `C03_lossy_seed_dup_fails` say
+exactly where a duplicate of the seed is harmless and where it is not.
 Only property theorems and non-vacuity examples live in this file.
 -/
 namespace ScVerif.C03
@@ -31,8 +36,8 @@ open ScVerif.C02 (setAt)
 
 variable {M : Type} [DecidableEq M]
 
-/-- **Convergence, partial** (publications delivered in commit order; subscriber churn, any consumer pace, lossy
-or backpressured stage, read masks).  For all contents, writer programs, subscriber options and every schedule
+/-- **Convergence, partial** (publications of one id delivered in commit order; subscriber churn, any consumer
+pace, lossy or backpressured stage, read masks).  For all contents, writer programs, subscriber options and every schedule
 of commit / snapshot / deliver / subscribe / cancel / consumer-receive steps that is `ordered`:
 at every moment, for every LIVE subscriber (registered, not cancelled) its raw view followed by what sits in
 its stage (forwarder in hand, or the merger's pending changes after any number of merges and ADD+REMOVE
